@@ -83,7 +83,10 @@ def _worker(args):
             agg['skipped'] += 1
             continue
         run_seed = _rng.sub_seed(batch_seed, f'{mod.PROPERTY}/{scenario}/{i}')
-        case = gen(_rng.derive(run_seed, 'gen'), tier, run_seed)
+        if getattr(gen, 'wants_index', False):
+            case = gen(_rng.derive(run_seed, 'gen'), tier, run_seed, i)
+        else:
+            case = gen(_rng.derive(run_seed, 'gen'), tier, run_seed)
         case['scenario'] = scenario
         case['seed'] = run_seed
         case = normalise(case)
